@@ -265,6 +265,59 @@ def construct {τ : Type} (lt : τ → τ → Bool) (dflt : τ) (filt : AnyFilt 
     | .error e => .error e
     | .ok f => .ok (f, fun j => times.getD (ord.getD j 0) dflt)
 
+/-! ## the constructor and the CALLER's filter object
+
+`sort_times` mutates a filter in place.  Objects are cells of a store; the constructor first makes
+`self._filter = copy.deepcopy(population_filter)` (a new cell) and sorts THAT cell, so the caller's
+object is left as it was and can be handed to further constructors. -/
+
+/-- object store: filters by identity (index) -/
+abbrev Heap (α : Type) := List (AnyFilt α)
+
+/-- `obj.sort_times(order)` on the object with identity `q` -/
+def sortInPlace (h : Heap α) (q : Nat) (ord : List Nat) : Except PErr (Heap α) :=
+  match h[q]? with
+  | none => .error .indexError
+  | some g =>
+    match g.sortTimes ord with
+    | .error e => .error e
+    | .ok g' => .ok (h.set q g')
+
+/-- `__init__`, the statements that touch the filter `p` handed in by the caller.
+    Returns the store after the call, the identity of the posterior's own filter, the sorted times. -/
+def constructHeap {τ : Type} (lt : τ → τ → Bool) (dflt : τ) (h : Heap α) (p : Nat) (times : List τ) :
+    Except PErr (Heap α × Nat × (Nat → τ)) :=
+  match h[p]? with
+  | none => .error .indexError
+  | some f =>
+    -- self._filter = copy.deepcopy(population_filter)
+    let q := h.length
+    let h1 := h ++ [f]
+    if times.length ≠ f.T then .error .valueError
+    else
+      let ord := argsortBy lt times dflt
+      -- self._filter.sort_times(np.argsort(times))
+      match sortInPlace h1 q ord with
+      | .error e => .error e
+      | .ok h2 => .ok (h2, q, fun j => times.getD (ord.getD j 0) dflt)
+
+/-- NOT chi: the aliasing variant "sort the caller's object, then copy it" (kept to show what the order
+    of the two statements protects against) -/
+def constructHeapAliased {τ : Type} (lt : τ → τ → Bool) (dflt : τ) (h : Heap α) (p : Nat)
+    (times : List τ) : Except PErr (Heap α × Nat × (Nat → τ)) :=
+  match h[p]? with
+  | none => .error .indexError
+  | some f =>
+    if times.length ≠ f.T then .error .valueError
+    else
+      let ord := argsortBy lt times dflt
+      match sortInPlace h p ord with
+      | .error e => .error e
+      | .ok h1 =>
+        match h1[p]? with
+        | none => .error .indexError
+        | some g => .ok (h1 ++ [g], h1.length, fun j => times.getD (ord.getD j 0) dflt)
+
 /-! ## `evaluateS1`: assembly of the gradient -/
 
 structure GradEnv (α : Type) where
